@@ -430,3 +430,13 @@ package syntax
 //@   ensures r.nullable == nullable && r.caseInsensitive == caseInsensitive && r.cc.sub == nil
 //@   ensures[one]    !not ==> forall c rune {mark(c)} :: ValidRune(c) ==> Member(r.cc, c) == (c == ch)
 //@   ensures[notone] not ==> forall c rune {mark(c)} :: ValidRune(c) ==> Member(r.cc, c) == (c != ch)
+
+// ---------------------------------------------------------------------------------------------
+// C12 / C09: parsed replacement patterns. ReplFor(d, rep): d is what the replacement parser produces for rep
+// (for the capture maps of the Regexp the data belongs to). The parser itself is not verified.
+// ---------------------------------------------------------------------------------------------
+//@ ghost func ReplFor(d *ReplacerData, rep string) bool
+//@ func NewReplacerData(rep string, caps map[int]int, capsize int, capnames map[string]int, op RegexOptions) (d *ReplacerData, err error)
+//@   trusted replacement parser (scanReplacement, scanDollar) and rule encoding are not verified; the contract only says that a result is returned exactly when there is no error
+//@   ensures (err == nil) == (d != nil)
+//@   ensures d != nil ==> ReplFor(d, rep)
